@@ -146,6 +146,47 @@ def rule_MP3(rep, prog):
     rep.require(rid, bool(after), fn.file, fn.name, "no-recheck-after-handler",
                 "_dispatch_source_invoke2 does not look at ds_pending_data again after the handler ran: merges made while the handler was running are not "
                 "delivered until some later merge", sample={"rechecks": len(after)})
+    # a merge that arrived before an earlier step of this invocation (installation, the registration handler) has already spent its wake-up: the same
+    # invocation must go on to look at the pending data - unless it found the source cancelled, or returns a queue on which it will be invoked again
+    k = consts.get(["DSF_CANCELED"], unit="source")
+    cts = []
+    for t in fn.all_insts():
+        if t.op == "icmp" and t.d["pred"] in ("eq", "ne") and t.ops[1][0] == "c" and t.ops[1][1] == 0:
+            a = fn.inst(t.ops[0])
+            if a is not None and a.op == "and" and a.ops[1][0] == "c" and (a.ops[1][1] & k["DSF_CANCELED"]):
+                cts.append(t)
+    steps = calls_named(fn, ("_dispatch_source_registration_callout", "_dispatch_source_install"))
+    if not steps:
+        rep.unknown(rid, "anchor vanished: _dispatch_source_invoke2 neither installs the source nor delivers the registration handler")
+    for c in steps:
+        bad = []
+        for kind, inst, cx, path in paths.walk(fn, c, lambda i: False, avoid=lambda i: i in pend):
+            if kind != "exit":
+                continue
+            if any(cx.truth.get(t.id) == (t.d["pred"] == "ne") for t in cts):
+                continue                                   # found cancelled: nothing is delivered any more
+            def names_queue(o, depth=0):
+                if o is None or depth > 6:
+                    return False
+                if o[0] in ("g", "ce"):
+                    return True
+                i = fn.inst(o) if o[0] == "i" else None
+                if i is None:
+                    return False
+                if i.op in ("bitcast", "getelementptr"):
+                    return names_queue(i.ops[0], depth + 1)
+                if i.op == "phi":
+                    return all(names_queue(v_, depth + 1) for v_, frm in i.ops)
+                if i.op == "select":
+                    return names_queue(i.ops[1], depth + 1) and names_queue(i.ops[2], depth + 1)
+                return i.op == "load" and "do_targetq" in prog.fields(i)
+            if inst.ops and names_queue(cx.resolve(inst.ops[0])):
+                continue                                   # re-driven on the queue it names
+            bad.append(path)
+        rep.require(rid, not bad, c.loc, fn.name, "returns-after-%s-without-looking-at-pending-data" % c.callee,
+                    "_dispatch_source_invoke2 can return after %s without examining ds_pending_data, finding the source cancelled, or naming a queue to be re-driven on "
+                    "(path %s): data merged before that step - while the source was suspended, or right after resume while the target queue was busy - has used its "
+                    "wake-up already and stays undelivered until some later merge" % (c.callee, bad[0] if bad else None), sample={"step": c.callee})
     fn = prog.fn("_dispatch_source_wakeup")
     rep.saw(fn)
     pl = [i for i in fn.all_insts() if i.op == "load" and (prog.fields(i) & PD)]
